@@ -181,6 +181,8 @@ impl<Error: Send + 'static> DecodeScheduler<Error> {
 	fn run_after_end(&mut self) -> Result<NextStep, Error> {
 		self.read_commands()?;
 		if !self.transport.playing {
+			#[cfg(kira_verif)]
+			crate::verif::point("dec.idle");
 			return Ok(NextStep::Wait);
 		}
 		self.shared.reached_end.store(false, Ordering::SeqCst);
